@@ -127,6 +127,97 @@ theorem step_html_void (c : Cfg) (s : State) (e : El) (es : List El) (n : Name) 
     simp [State.reconstructAfe, State.insertAndPop, State.onTree, hr, Tree.insertAndPop, Tree.insertHtml,
       Tree.pushNew, Tree.pop, hst, hafe]
 
+/-- names of the enumeration that "in body" treats by "any other start tag" / "any other end tag", whatever the
+state (no scope test, no implied end tags): besides `Name.other` -/
+def ordNames : List Name :=
+  [.span, .sub, .sup, .var, .mi, .mo, .mn, .ms, .mtext, .annotationXml, .foreignobject, .desc, .ruby]
+
+/-- the ordinary HTML elements: unknown names and `ordNames` -/
+def Name.isOrd (n : Name) : Bool := n.isOther || n.isIn ordNames
+
+theorem inBodyStart_ord (c : Cfg) (s : State) (n : Name) (sc : Bool) (a : Attrs) (hn : n.isOrd = true) :
+    inBodyStart c s n a sc = .done ((s.reconstructAfe).insertHtml n a) .none := by
+  cases n <;> simp [Name.isOrd, Name.isOther, ordNames, Name.isIn] at hn
+  all_goals eval_rule' [inBodyStart]
+  all_goals (try simp +decide [Name.isIn, other_isIn, other_beq])
+
+theorem inBodyEnd_ord (c : Cfg) (s : State) (n : Name) (hn : n.isOrd = true) :
+    inBodyEnd c s n = .done (s.anyOtherEndTag c n) .none := by
+  cases n <;> simp [Name.isOrd, Name.isOther, ordNames, Name.isIn] at hn
+  all_goals eval_rule' [inBodyEnd]
+  all_goals (try simp +decide [Name.isIn, blockEndNames, other_isIn, other_beq])
+
+theorem ord_not_mglyph (n : Name) (hn : n.isOrd = true) : n ≠ .mglyph ∧ n ≠ .malignmark := by
+  cases n <;> simp [Name.isOrd, Name.isOther, ordNames, Name.isIn] at hn <;> simp
+
+/-- §13.2.6.4.7 "any other start tag", in body, nothing to reconstruct -/
+theorem step_html_start_ord (c : Cfg) (s : State) (e : El) (es : List El) (n : Name) (sc : Bool) (a : Attrs)
+    (hn : n.isOrd = true)
+    (hst : s.tree.stack = e :: es) (he : HtmlTop e) (hm : s.mode = .inBody) (hafe : s.tree.afe = []) :
+    StepTo c s (.start n sc a) (⟨s.tree.nextId, .html, n, a⟩ :: e :: es) := by
+  have hu := useHtml_start s e es n sc a hst he (ord_not_mglyph n hn)
+  have hr : s.tree.reconstructAfe = s.tree := reconstructAfe_nil _ hafe
+  have hstep := step_of_done c s ((s.reconstructAfe).insertHtml n a) (.start n sc a) .none rfl
+    (show stepOnce c s (.start n sc a) false = _ by
+      simp only [stepOnce, hu, Bool.or_true, if_true, stepMode, hm, inBody]; exact inBodyStart_ord c s n sc a hn)
+  unfold StepTo
+  rw [hstep]
+  refine ⟨rfl, rfl, rfl, ?_, ?_⟩
+  · simp [State.reconstructAfe, State.insertHtml, State.onTree, hr, Tree.insertHtml, Tree.pushNew]
+  · simp [State.reconstructAfe, State.insertHtml, State.onTree, hr, Tree.insertHtml, Tree.pushNew, hst]
+
+/-- §13.2.6.4.7 "any other end tag", the current node being the HTML element to close -/
+theorem step_html_end_ord (c : Cfg) (s : State) (e : El) (es : List El) (n : Name) (hno : n.isOrd = true)
+    (hst : s.tree.stack = e :: es) (hns : e.ns = .html) (hn : e.name = n) (hm : s.mode = .inBody) :
+    StepTo c s (.end n) es := by
+  have hu : useHtmlRules s (.end n) = true := by simp [useHtmlRules, State.stack, hst, hns]
+  have hf : findEndTarget c.dev n s.tree.stack = some 0 := by
+    simp [hst, findEndTarget, El.isHtml, hns, hn]
+  have hstep := step_of_done c s (s.anyOtherEndTag c n) (.end n) .none rfl
+    (show stepOnce c s (.end n) false = _ by
+      simp only [stepOnce, hu, Bool.or_true, if_true, stepMode, hm, inBody]; exact inBodyEnd_ord c s n hno)
+  unfold StepTo
+  rw [hstep]
+  refine ⟨rfl, rfl, rfl, ?_, ?_⟩
+  · simp only [State.anyOtherEndTag, State.onTree, Tree.anyOtherEndTag, hf]
+  · simp only [State.anyOtherEndTag, State.onTree, Tree.anyOtherEndTag, hf]
+    simp [hst]
+
+/-- start tags "in body" disposes of without touching the stack, whatever the state: void elements inserted
+and popped at once, the head-only elements, the start tags "in body" ignores, `html` / `body` -/
+def voidLikeNames : List Name :=
+  [.area, .br, .embed, .img, .keygen, .wbr, .param, .source, .track, .image, .base, .basefont, .bgsound, .link, .«meta»,
+   .caption, .col, .colgroup, .frame, .head, .tbody, .td, .tfoot, .th, .thead, .tr, .html, .body]
+
+set_option maxHeartbeats 2000000 in
+theorem inBodyStart_voidLike (c : Cfg) (s : State) (n : Name) (sc : Bool) (a : Attrs) (hn : n.isIn voidLikeNames = true)
+    (hafe : s.tree.afe = []) :
+    ∃ s', inBodyStart c s n a sc = .done s' .none ∧ s'.mode = s.mode ∧ s'.tree.afe = [] ∧ s'.tree.stack = s.tree.stack := by
+  have hr : s.tree.reconstructAfe = s.tree := reconstructAfe_nil _ hafe
+  cases n <;> simp [voidLikeNames, Name.isIn] at hn
+  all_goals eval_rule' [inBodyStart, inHead, headStartNames]
+  all_goals (try simp only [Name.isIn, List.contains_cons, List.contains_nil, beq_iff_eq, reduceCtorEq, Bool.or_false,
+    Bool.or_self, Bool.false_eq_true, if_false, Bool.and_eq_true, false_and, Bool.or_eq_true, or_self, or_false, false_or])
+  all_goals (repeat' split)
+  all_goals first
+    | exact ⟨_, rfl, rfl, hafe, rfl⟩
+    | (refine ⟨_, rfl, rfl, ?_, ?_⟩ <;>
+        simp [State.reconstructAfe, State.insertAndPop, State.onTree, hr, Tree.insertAndPop, Tree.insertHtml,
+          Tree.pushNew, Tree.pop, hafe])
+
+theorem step_html_voidLike (c : Cfg) (s : State) (e : El) (es : List El) (n : Name) (sc : Bool) (a : Attrs)
+    (hst : s.tree.stack = e :: es) (he : HtmlTop e) (hm : s.mode = .inBody) (hafe : s.tree.afe = [])
+    (hn : n.isIn voidLikeNames = true) : StepTo c s (.start n sc a) (e :: es) := by
+  have hnm : n ≠ .mglyph ∧ n ≠ .malignmark := by
+    cases n <;> simp [voidLikeNames, Name.isIn] at hn <;> simp
+  have hu := useHtml_start s e es n sc a hst he hnm
+  obtain ⟨s', hb, h1, h2, h3⟩ := inBodyStart_voidLike c s n sc a hn hafe
+  have hstep := step_of_done c s s' (.start n sc a) .none rfl
+    (show stepOnce c s (.start n sc a) false = _ by simp only [stepOnce, hu, Bool.or_true, if_true, stepMode, hm, inBody]; exact hb)
+  unfold StepTo
+  rw [hstep]
+  exact ⟨rfl, rfl, h1, h2.trans hafe.symm, h3.trans hst⟩
+
 /-- §13.2.6.4.7 a start tag whose tag name is "math" / "svg" -/
 theorem step_html_root (c : Cfg) (s : State) (e : El) (es : List El) (n : Name) (ns : Ns) (a : Attrs)
     (hst : s.tree.stack = e :: es) (he : HtmlTop e) (hm : s.mode = .inBody) (hafe : s.tree.afe = [])
